@@ -108,9 +108,12 @@ func genCsync(x *sched.Exec) csScenario {
 	}
 	if strings.Contains(Opt, "burst") {
 		sc.Burst = true
+		if r.Intn(3) == 0 {
+			sc.Kind = "mutex" // (half of the bursts in all)
+		}
 		for i, n := 0, 3+r.Intn(3); i < n; i++ {
 			var prog []csOp
-			for a, na := 0, 6+r.Intn(10); a < na; a++ {
+			for a, na := 0, 10+r.Intn(16); a < na; a++ {
 				w := sc.Kind == "mutex" || r.Intn(2) == 0
 				op := csOp{Op: "trylock", W: w}
 				if r.Intn(3) == 0 {
@@ -119,6 +122,19 @@ func genCsync(x *sched.Exec) csScenario {
 				prog = append(prog, op, csOp{Op: "rel", K: len(prog)})
 			}
 			sc.Clients = append(sc.Clients, prog)
+		}
+		return sc
+	}
+	if sc.Kind == "rw" && r.Intn(60) == 0 {
+		// "any number of read holders": one client takes 2^16 (+ a few) read holds in one go (op bulkr: to the
+		// monitor ONE read acquisition, held until all of them are released), others try to write and read
+		sc.Clients = [][]csOp{
+			{{Op: "bulkr", K: 65536 + []int{0, 0, 0, 1, 256}[r.Intn(5)]}, {Op: "rel", K: 0}},
+			{{Op: "trylock", W: true}, {Op: "rel", K: 0}, {Op: "trylock", W: true}, {Op: "rel", K: 2}},
+			{{Op: "trylock", W: r.Intn(2) == 0}, {Op: "rel", K: 0}},
+		}
+		if r.Intn(2) == 0 {
+			sc.Clients[1][0] = csOp{Op: "lock", W: true, C: true}
 		}
 		return sc
 	}
@@ -306,6 +322,43 @@ func (d *csDriver) opFunc(c *csClient, pi int, op csOp, rw bool) sched.Op {
 			}
 			d.acquired(c, pi, id, w, rel)
 		}}
+	case "bulkr":
+		return sched.Op{Label: label, Do: func() {
+			d.mu.Lock()
+			d.nextID++
+			id := d.nextID
+			d.mu.Unlock()
+			c.cancel = nil
+			x.Log(trace.E{"ev": "call", "id": id, "op": "trylock", "mode": "r", "blk": d.blockedIDs(), "actor": c.c.Name})
+			c.inflight, c.pi = id, pi
+			// one controller step: the hooks are bypassed while this goroutine (the only one running) works
+			x.Bypass.Store(true)
+			rels, ok := make([]func(), 0, op.K), true
+			for i := 0; i < op.K && ok; i++ {
+				var rel func()
+				if rel, ok = d.lk.TryLock(false); ok {
+					rels = append(rels, rel)
+				}
+			}
+			if !ok {
+				for _, rel := range rels {
+					rel()
+				}
+			}
+			x.Bypass.Store(false)
+			c.inflight = 0
+			if !ok {
+				x.Log(trace.E{"ev": "ret", "id": id, "xid": (c.idx+1)*100 + pi + 1, "res": "false", "nr": 0, "nw": 0, "actor": c.c.Name})
+				return
+			}
+			d.acquired(c, pi, id, false, func() {
+				x.Bypass.Store(true)
+				for _, rel := range rels {
+					rel()
+				}
+				x.Bypass.Store(false)
+			})
+		}}
 	case "llock":
 		return sched.Op{Label: label, Do: func() {
 			d.mu.Lock()
@@ -378,7 +431,9 @@ func (d *csDriver) Run(x *sched.Exec, raw json.RawMessage) json.RawMessage {
 		sc = genCsync(x)
 	}
 	d.burst = sc.Burst
-	x.Log(trace.E{"ev": "cfg", "fine": fine || sc.Burst})
+	bulk := len(sc.Clients) > 0 && len(sc.Clients[0]) > 0 && sc.Clients[0][0].Op == "bulkr"
+	// (a bulk release runs with the hooks bypassed: waiters it wakes pass their sections in the same step)
+	x.Log(trace.E{"ev": "cfg", "fine": fine || sc.Burst || bulk})
 	out, _ := json.Marshal(sc)
 	rw := sc.Kind == "rw"
 	if rw {
@@ -424,6 +479,7 @@ func (d *csDriver) Run(x *sched.Exec, raw json.RawMessage) json.RawMessage {
 	}
 	if sc.Burst {
 		x.Policy = func(*sched.Actor, string, string, any) bool { return false } // hooks never park
+		x.Bypass.Store(true)                                                     // ... and do not serialize the clients either
 		for _, c := range x.Clients {
 			prog := c.Prog
 			c.Prog = nil
@@ -435,6 +491,7 @@ func (d *csDriver) Run(x *sched.Exec, raw json.RawMessage) json.RawMessage {
 		}
 		x.Labels = append(x.Labels, "burst")
 		synctest.Wait()
+		x.Bypass.Store(false)
 		// everything has returned or is durably blocked: an exact quiescent observation
 		d.burst = false
 		x.Log(trace.E{"ev": "quiet", "blk": d.blockedIDs(), "xblk": d.blockedXIDs()})
